@@ -22,13 +22,19 @@ error is its sentinel cause (+ the Name of an ArgumentError); a loop over a map 
 early return iterates over the list parameter `ord1` (theorems: for every order), every other map
 loop over the association list.
 
-What is proved.  Through the explicit projection `view : Graph.G → H` each finished method equals
-the corresponding part of the hand model `Acme.Graph` (state compared look-up by look-up, `Heq`;
-outcome; `dangling` ↔ `unsupported`).  `R_err_unchanged_*` is C06's atomicity for the GENERATED
+What is proved.  Through the explicit projection `view : Graph.G → H` EVERY translated writer equals
+its `stepX` of the hand model `Acme.Graph` (state compared look-up by look-up, `Heq`; outcome with
+the cause on refusal; `dangling` ↔ `unsupported`), the checks equal the model's tests, the set
+methods the model's `Reg` operations; `R_no_panic_*` for each.  `R_err_unchanged_*` is C06's atomicity for the GENERATED
 code of every translated writer, with no model and no hypothesis.
 
-Hypotheses.  `Closed g` (no dangling id in the world: the heap of a Go program always is closed;
-the model totalises look-ups of missing entities instead).  `AddNodeInterface`: the interface is
+Hypotheses.  `Inv g`, through `R_closed_of_inv : Inv g → Closed g` (no dangling id in the world:
+the heap of a Go program always is closed; the model totalises look-ups of missing entities
+instead), and — RemoveSentMessage / RemoveReceivedMessage — `SentI.sent_get` / `RecvI.recv_val`: the
+model stores a message under its own id, the code reads the VALUE of the registry where the model
+reads the key.  AddSentMessage / AddReceivedMessage: the argument exists (nil: `_nil`), and for
+AddSentMessage the message has no sender yet (D25 boundary).  `Bus.UpdateName`,
+`AddReceivedMessage`, the checks and the set methods need nothing.  `AddNodeInterface`: the interface is
 not attached yet (the model's D25 boundary: the code has no such check), and — only for
 `R_Bus_AddNodeInterface_statics_order` — no two sent messages of the interface share a static
 CAN-ID (`SentI.static_get` of `Inv`): with two equal ids the bus index would depend on the map
@@ -37,6 +43,10 @@ iteration order.  Nothing else.
 import Acme.Proofs.GenRegistryBus
 import Acme.Proofs.GenRegistryAddNI
 import Acme.Proofs.GenRegistryAtomic
+import Acme.Proofs.GenRegistryIface
+import Acme.Proofs.GenRegistryNode
+import Acme.Proofs.GenRegistrySentAll
+import Acme.Proofs.GraphAtomic
 
 namespace Acme.Props.GenRegistry
 open Acme Acme.Graph Acme.RegSem Acme.Gen Acme.GenR
@@ -154,6 +164,145 @@ theorem R_no_panic_Bus_AddNodeInterface (g : G) (b i : Nat) (ord : List Nat) (bu
   have h := addNI_main g b i ord bus ifc hc hb hi hperm hpb
   rw [hp] at h
   split at h <;> simp_all
+
+/-! ### under the model's own invariant -/
+
+/-- the closure hypothesis is a consequence of `Inv` -/
+theorem R_closed_of_inv {g : G} (inv : Inv g) : Closed g := closed_of_inv inv
+
+theorem R_Bus_RemoveNodeInterface_inv (g : G) (b nodeId : Nat) (inv : Inv g) :
+    ObsEq (obs (R.Bus_RemoveNodeInterface (view g) b nodeId)) (obsG (stepBusRemoveIface g b nodeId)) :=
+  R_Bus_RemoveNodeInterface_raw g b nodeId (closed_of_inv inv)
+
+theorem R_Bus_AddNodeInterface_inv (g : G) (b i : Nat) (ord : List Nat) (bus : BusE) (ifc : IfaceE) (inv : Inv g)
+    (hb : g.buses.get b = some bus) (hi : g.ifaces.get i = some ifc) (hperm : ord.Perm ifc.sent.vals)
+    (hpb : ifc.parentBus = none) :
+    match (stepBusAddIface g b i).2 with
+    | .ok => ∃ h', R.Bus_AddNodeInterface (view g) b (some i) ord = .val (h', none) ∧
+        Heq h' (view (withStatics (stepBusAddIface g b i).1 b (addAll bus.staticIDs (addAll [] (staticOf g ord)))))
+    | .err c => ∃ e, R.Bus_AddNodeInterface (view g) b (some i) ord = .val (view g, some e) ∧
+        (ofCause e.cause = c ∨ (c = .tooBig ∧ e.cause = .ErrIsDuplicated ∧
+          ifc.sent.vals.any (tooBigB g) = true ∧ ifc.sent.vals.any (clashB g bus) = true))
+    | _ => False :=
+  addNI_main g b i ord bus ifc (closed_of_inv inv) hb hi hperm hpb
+
+/-- under `Inv` the static index the generated loops build, in ANY visiting order, answers every
+look-up as the model's does (`SentI.static_get`: no two sent messages share a static CAN-ID) -/
+theorem R_Bus_AddNodeInterface_statics_inv (g : G) (i : Nat) (ifc : IfaceE) (inv : Inv g)
+    (hi : g.ifaces.get i = some ifc) (r : Reg Nat) (ord : List Nat) (hperm : ord.Perm ifc.sent.vals) (c : Nat) :
+    Reg.get (addAll r (addAll [] (staticOf g ord))) c = Reg.get (addAll r (staticOf g ifc.sent.vals)) c :=
+  statics_order g r ord ifc.sent.vals hperm (statics_fun_of_inv inv i ifc hi) c
+
+/-! ### node_iterface.go -/
+
+theorem R_NodeInterface_RemoveAllSentMessages (g : G) (i : Nat) (inv : Inv g) :
+    ObsEq (obsV (R.NodeInterface_RemoveAllSentMessages (view g) i)) (obsG (stepIfaceRemoveAllSent g i)) :=
+  RemoveAllSent_main g i (closed_of_inv inv)
+
+theorem R_NodeInterface_AddSentMessage_nil (g : G) (i m : Nat) (ifc : IfaceE) (hi : g.ifaces.get i = some ifc)
+    (hm : g.msgs.get m = none) :
+    ObsEq (obs (R.NodeInterface_AddSentMessage (view g) i none)) (obsG (stepIfaceAddSent g i m)) :=
+  AddSent_nil g i m ifc hi hm
+
+/-- the generated `AddSentMessage` IS the model's `ifaceAddSent` step (state, outcome, cause:
+receiverIsSender / duplicated name / tooBig / duplicated static id on the interface or the bus /
+duplicated message id), for an existing interface and a message that has no sender yet (D25) -/
+theorem R_NodeInterface_AddSentMessage (g : G) (i m : Nat) (ifc : IfaceE) (msg : MsgE) (inv : Inv g)
+    (hi : g.ifaces.get i = some ifc) (hm : g.msgs.get m = some msg) (hs : msg.sender = none) :
+    ObsEq (obs (R.NodeInterface_AddSentMessage (view g) i (some m))) (obsG (stepIfaceAddSent g i m)) :=
+  AddSent_main g i m ifc msg (closed_of_inv inv) hi hm hs
+
+theorem R_NodeInterface_RemoveSentMessage (g : G) (i m : Nat) (inv : Inv g) :
+    ObsEq (obs (R.NodeInterface_RemoveSentMessage (view g) i m)) (obsG (stepIfaceRemoveSent g i m)) :=
+  RemoveSent_main g i m inv
+
+theorem R_NodeInterface_AddReceivedMessage_nil (g : G) (i m : Nat) (ifc : IfaceE) (hi : g.ifaces.get i = some ifc)
+    (hm : g.msgs.get m = none) :
+    ObsEq (obs (R.NodeInterface_AddReceivedMessage (view g) i none)) (obsG (stepIfaceAddRecv g i m)) :=
+  AddRecv_nil g i m ifc hi hm
+
+theorem R_NodeInterface_AddReceivedMessage (g : G) (i m : Nat) (msg : MsgE) (hm : g.msgs.get m = some msg) :
+    ObsEq (obs (R.NodeInterface_AddReceivedMessage (view g) i (some m))) (obsG (stepIfaceAddRecv g i m)) :=
+  AddRecv_main g i m msg hm
+
+theorem R_NodeInterface_RemoveReceivedMessage (g : G) (i m : Nat) (inv : Inv g) :
+    ObsEq (obs (R.NodeInterface_RemoveReceivedMessage (view g) i m)) (obsG (stepIfaceRemoveRecv g i m)) :=
+  RemoveRecv_main g i m inv
+
+/-! ### node.go, and the remaining bus.go writers -/
+
+/-- verify-all-then-apply: refused (duplicated, heap untouched) iff one attached bus knows the new
+id, otherwise every attached bus re-keys the node and the node takes the id -/
+theorem R_Node_UpdateID (g : G) (n nid : Nat) (inv : Inv g) :
+    ObsEq (obs (R.Node_UpdateID (view g) n nid)) (obsG (stepNodeSetId g n nid)) :=
+  NodeUpdateID_main g n nid (closed_of_inv inv)
+
+theorem R_Node_UpdateName (g : G) (n : Nat) (name : String) (inv : Inv g) :
+    ObsEq (obs (R.Node_UpdateName (view g) n name)) (obsG (stepNodeRename g n name)) :=
+  NodeUpdateName_main g n name (closed_of_inv inv)
+
+theorem R_Bus_RemoveAllNodeInterfaces (g : G) (b : Nat) (inv : Inv g) :
+    ObsEq (obsV (R.Bus_RemoveAllNodeInterfaces (view g) b)) (obsG (stepBusRemoveAllIfaces g b)) :=
+  RemoveAllNI_main g b (closed_of_inv inv)
+
+theorem R_Bus_UpdateName (g : G) (b : Nat) (name : String) :
+    ObsEq (obs (R.Bus_UpdateName (view g) b name)) (obsG (stepBusRename g b name)) :=
+  BusUpdateName_main g b name
+
+/-! ### no panic, for every method with a model equality -/
+
+theorem no_panic_of_obsEq {r : Res (H × Option R.Err)} {g : G} {op : Op} (h : ObsEq (obs r) (obsG (step g op))) :
+    r ≠ .panic := by
+  intro hp
+  have hnp := step_np g op
+  rw [hp] at h
+  unfold obsG at h
+  split at h <;> simp_all [obs, ObsEq]
+
+theorem no_panicV_of_obsEq {r : Res H} {g : G} {op : Op} (h : ObsEq (obsV r) (obsG (step g op))) :
+    r ≠ .panic := by
+  intro hp
+  have hnp := step_np g op
+  rw [hp] at h
+  unfold obsG at h
+  split at h <;> simp_all [obsV, ObsEq]
+
+theorem R_no_panic_NodeInterface_AddSentMessage (g : G) (i m : Nat) (ifc : IfaceE) (msg : MsgE) (inv : Inv g)
+    (hi : g.ifaces.get i = some ifc) (hm : g.msgs.get m = some msg) (hs : msg.sender = none) :
+    R.NodeInterface_AddSentMessage (view g) i (some m) ≠ .panic :=
+  no_panic_of_obsEq (op := .ifaceAddSent i m) (R_NodeInterface_AddSentMessage g i m ifc msg inv hi hm hs)
+
+theorem R_no_panic_NodeInterface_RemoveSentMessage (g : G) (i m : Nat) (inv : Inv g) :
+    R.NodeInterface_RemoveSentMessage (view g) i m ≠ .panic :=
+  no_panic_of_obsEq (op := .ifaceRemoveSent i m) (R_NodeInterface_RemoveSentMessage g i m inv)
+
+theorem R_no_panic_NodeInterface_AddReceivedMessage (g : G) (i m : Nat) (msg : MsgE) (hm : g.msgs.get m = some msg) :
+    R.NodeInterface_AddReceivedMessage (view g) i (some m) ≠ .panic :=
+  no_panic_of_obsEq (op := .ifaceAddRecv i m) (R_NodeInterface_AddReceivedMessage g i m msg hm)
+
+theorem R_no_panic_NodeInterface_RemoveReceivedMessage (g : G) (i m : Nat) (inv : Inv g) :
+    R.NodeInterface_RemoveReceivedMessage (view g) i m ≠ .panic :=
+  no_panic_of_obsEq (op := .ifaceRemoveRecv i m) (R_NodeInterface_RemoveReceivedMessage g i m inv)
+
+theorem R_no_panic_Node_UpdateID (g : G) (n nid : Nat) (inv : Inv g) :
+    R.Node_UpdateID (view g) n nid ≠ .panic :=
+  no_panic_of_obsEq (op := .nodeSetId n nid) (R_Node_UpdateID g n nid inv)
+
+theorem R_no_panic_Node_UpdateName (g : G) (n : Nat) (name : String) (inv : Inv g) :
+    R.Node_UpdateName (view g) n name ≠ .panic :=
+  no_panic_of_obsEq (op := .nodeRename n name) (R_Node_UpdateName g n name inv)
+
+theorem R_no_panic_Bus_RemoveAllNodeInterfaces (g : G) (b : Nat) (inv : Inv g) :
+    R.Bus_RemoveAllNodeInterfaces (view g) b ≠ .panic :=
+  no_panicV_of_obsEq (op := .busRemoveAllIfaces b) (R_Bus_RemoveAllNodeInterfaces g b inv)
+
+theorem R_no_panic_NodeInterface_RemoveAllSentMessages (g : G) (i : Nat) (inv : Inv g) :
+    R.NodeInterface_RemoveAllSentMessages (view g) i ≠ .panic :=
+  no_panicV_of_obsEq (op := .ifaceRemoveAllSent i) (R_NodeInterface_RemoveAllSentMessages g i inv)
+
+theorem R_no_panic_Bus_UpdateName (g : G) (b : Nat) (name : String) :
+    R.Bus_UpdateName (view g) b name ≠ .panic :=
+  no_panic_of_obsEq (op := .busRename b name) (R_Bus_UpdateName g b name)
 
 /-! ### C06 read off the generated code: an error leaves the heap as it was -/
 
